@@ -70,4 +70,40 @@ Rewrite(p, mode) ==
        [] mode = "magic_end"     -> Body(p) \o <<MagicOp, Op1("POP"), Op1("STOP")>>
        [] mode = "magic_idx"     -> InsAt(p, h, <<MagicOp, Op1("POP")>>)
 Modes == {"first_keep", "first_replace", "last_keep", "last_replace", "append_nopop", "append_pop", "magic_end", "magic_idx"}
+
+---------------------------------------------------------------------------
+(* insert_function_call_on_unpickled_object: define the function (exec of its source, or marshal.loads of its   *)
+(* bytecode + exec), obtain it with eval(name), swap it below the unpickled object through memo slots 1 and 2,  *)
+(* and REDUCE.  K = [def, name, code, args]: the constants the helper encodes (supplied with the record).        *)
+BG(n) == [o |-> "GLOBAL", m |-> "builtins", n |-> n]
+AppendPy(g, c, pop) == <<g, Op1("MARK"), c, Op1("TUPLE"), Op1("REDUCE")>> \o (IF pop THEN <<Op1("POP")>> ELSE <<>>)
+Swap(args) == <<[o |-> "PUT", a |-> 1], Op1("POP"), [o |-> "PUT", a |-> 2], Op1("POP"), [o |-> "GET", a |-> 1], Op1("MARK"),
+                [o |-> "GET", a |-> 2]>> \o args \o <<Op1("TUPLE"), Op1("REDUCE")>>
+RewriteFn(p, mode, K) ==
+  LET define == IF mode = "fn_compiled"
+                THEN AppendPy([o |-> "GLOBAL", m |-> "marshal", n |-> "loads"], K.code, FALSE)
+                     \o <<[o |-> "PUT", a |-> 1], Op1("POP"), BG("exec"), Op1("MARK"), [o |-> "GET", a |-> 1], Op1("TUPLE"),
+                          Op1("REDUCE"), Op1("POP")>>
+                ELSE AppendPy(BG("exec"), K.def, TRUE)
+  IN Body(p) \o define \o AppendPy(BG("eval"), K.name, FALSE) \o Swap(IF mode = "fn_args" THEN K.args ELSE <<>>) \o <<Op1("STOP")>>
+
+EvalGC == [k |-> "g", m |-> "builtins", n |-> "eval"]
+IsFnApplied(e, bres) == e.e = "call" /\ e.f.k = "obj" /\ SameVal(e.f.f, EvalGC) /\ Len(e.a) >= 1 /\ SameVal(e.a[1], bres)
+FnWhyOf(base, new, mode) ==
+  LET b == Run(base)  r == Run(new)
+      n == Cardinality({i \in DOMAIN r.ev : IsFnApplied(r.ev[i], Result(b))}) IN
+  IF r.st # "stop" THEN "rewritten program does not run to STOP"
+  ELSE IF new[Len(new)].o # "STOP" \/ Count(new, "STOP") # 1 THEN "not exactly one final STOP"
+  ELSE IF n # 1 THEN "function not applied exactly once to the unpickled object"
+  ELSE IF ~IsSubseqEv(b.ev, r.ev) THEN "an effect of the base pickle is lost or reordered"
+  ELSE IF Len(r.ev) # Len(b.ev) + (IF mode = "fn_compiled" THEN 7 ELSE 5) THEN "unexpected number of added effects"
+  ELSE IF Len(r.stack) # 0 THEN "VM stack not empty at STOP"
+  ELSE IF ~(Result(r).k = "obj" /\ Result(r).f.k = "obj" /\ SameVal(Result(r).f.f, EvalGC)) THEN "result is not the function's value"
+  ELSE "ok"
+FnModeSet == {"fn_plain", "fn_args", "fn_compiled"}
+\* symbolic constants for the design check
+SymK == [def |-> [o |-> "CONST", ty |-> "str", v |-> "str:'def f'", h |-> "s:'def f'", s |-> "def f"],
+         name |-> [o |-> "CONST", ty |-> "str", v |-> "str:'f'", h |-> "s:'f'", s |-> "f"],
+         code |-> [o |-> "CONST", ty |-> "bytes", v |-> "bytes:b'code'", h |-> "b:b'code'", s |-> ""],
+         args |-> <<[o |-> "CONST", ty |-> "int", v |-> "int:7", h |-> "n:7", s |-> ""]>>]
 =============================================================================
